@@ -221,8 +221,9 @@ func (data *Data) DeleteDataNode(id uint64) error {
 
 // newShardOwner sets the owner of the provided shard to the data node
 // that currently owns the fewest number of shards. If multiple nodes
-// own the same (fewest) number of shards, then one of those nodes
-// becomes the new shard owner.
+// own the same (fewest) number of shards, then the one with the lowest
+// node ID becomes the new shard owner. The choice must not depend on map
+// iteration order: it is made independently on every meta node.
 func newShardOwner(s ShardInfo, ownerFreqs map[int]int) (uint64, error) {
 	var (
 		minId   = -1
@@ -230,7 +231,7 @@ func newShardOwner(s ShardInfo, ownerFreqs map[int]int) (uint64, error) {
 	)
 
 	for id, freq := range ownerFreqs {
-		if minId == -1 || freq < minFreq {
+		if minId == -1 || freq < minFreq || (freq == minFreq && id < minId) {
 			minId, minFreq = int(id), freq
 		}
 	}
